@@ -56,7 +56,7 @@ LN_MAX = math.log(O.MAX_SQRT_RATIO)
 
 def plan(tier, seed):
     if tier == "quick":
-        pure, live = 1500, 40
+        pure, live = 7500, 200
     else:
         pure, live = 110000, 2500
     return [{"shard": i, "pure": pure, "live": live} for i in range(NSHARDS)]
